@@ -195,7 +195,7 @@ PLANS["C09"] = P(
     "model_checking",
     ["verify.lenient.time", "verify.accept", "scn.expect.reject", "scn.expect.claims", "scn.model.agrees"],
     [{"module": "MC_time", "quick": "MC_time_quick.cfg", "thorough": "MC_time.cfg", "timeout": {"quick": 300, "thorough": 900}}],
-    [{"driver": "replay", "scn": "MC_time", "args": {"n": 600, "matrix": 1}}, {"driver": "rich", "args": {"n": 500, "depth": 2, "arbsel": 0, "time": 1}}],
+    [{"driver": "replay", "scn": "MC_time", "args": {"n": 1600, "matrix": 1}}, {"driver": "rich", "args": {"n": 500, "depth": 2, "arbsel": 0, "time": 1}}],
     [{"driver": "replay", "scn": "MC_time", "args": {"n": 100000, "matrix": 1}}, {"driver": "rich", "args": {"n": 20000, "depth": 3, "arbsel": 0, "time": 1}}],
     required={"verify.lenient.time": 300, "verify.accept": 50, "scn.model.agrees": 500},
     rule="cases = behaviours of MC_time: exp in {absent, null, string, negative, now-10y .. now+63y} x nbf in {absent, past, now+30s .. now+10y} x clock positions {0, +2h} "
